@@ -130,6 +130,7 @@ class InterpBase:
         self.pairs_base: Dict[Any, Length] = {}
         self.opaque_funcs: set = set()
         self.number_locals: bool = False
+        self.shift_mode: bool = False
         self.track_sym_ranges: bool = False
         self.sym_rng: Dict[Any, Interval] = {}
         self.list_version: Dict[str, int] = {}
@@ -149,6 +150,13 @@ class InterpBase:
         if n is None:
             n = self._site_ids[key] = len(self._site_ids) + 1
         return n
+
+    def with_pc(self, v, state):
+        """Control-dependence taint. In shift mode a value that is itself shift invariant stays so under a branch: the
+        branch conditions are checked separately (comparison of equal shift responses)."""
+        if self.shift_mode and isinstance(v, Num) and v.wt is None and "MU" not in v.prov:
+            v = replace(v, wt=((), ()))
+        return replace(v, prov=v.prov | state.pc)
 
     def note_range(self, v) -> None:
         """Side table term -> interval over all visits (lets a rule ask for the range of a factor of a stored term)."""
@@ -336,7 +344,7 @@ class InterpBase:
         if c is None or not isinstance(c.obj, InstObj):
             return
         if state.pc and isinstance(v, (Num, Bool, Str)):
-            v = replace(v, prov=v.prov | state.pc)
+            v = self.with_pc(v, state)
         self.field_version[(p.loc, fld)] = self.field_version.get((p.loc, fld), 0) + 1
         singleton = not c.params
         precise = all(i != STAR and i[0] not in ("pa", "pb", "oth") for i in p.idx)
@@ -499,7 +507,7 @@ class InterpBase:
             self.note_undecided("append to a non-list", node)
             return
         if state.pc and isinstance(v, (Num, Bool, Str)):
-            v = replace(v, prov=v.prov | state.pc)
+            v = self.with_pc(v, state)
         o = c.obj
         # loops that are active now but were not when the list was allocated
         outer = [l for l in self.loops if l.token not in c.params]
